@@ -61,6 +61,7 @@ type Path struct {
 	lets     map[string]SV
 	nforks   int
 	pendingExt string
+	prevH      string
 	anchors  []anchor
 	seq      int
 	freshSeq map[string]int
@@ -79,11 +80,17 @@ type anchor struct {
 // call), "fresh:<id>" (write to storage identified by id), or "break" (write to pre-existing containers).
 func (x *Exec) extStep(p *Path, newH, kind string) {
 	p.seq++
+	if kind == "ghost" && p.wfKnown != "" && p.wfKnown == p.prevH {
+		// wf constrains only live containers and the unallocated region: cell / trace updates,
+		// allocation and publication of nothing-yet-live preserve it
+		p.assume(fmt.Sprintf("(wf %s)", newH))
+		p.wfKnown = newH
+	}
 	keep := p.anchors[:0:0]
 	for _, a := range p.anchors {
 		ok := false
 		switch {
-		case kind == "ghost":
+		case kind == "ghost" || kind == "publish":
 			ok = true
 		case strings.HasPrefix(kind, "fresh:"):
 			if s, isFresh := p.freshSeq[kind[6:]]; isFresh && a.seq <= s {
@@ -284,6 +291,7 @@ func (x *Exec) upd(p *Path, comp string, val string) {
 	}
 	h := x.newHeap(p)
 	p.assume(fmt.Sprintf("(= %s (mkHeap %s))", h, strings.Join(parts, " ")))
+	p.prevH = p.H
 	p.H = h
 	if ghostComp[comp] {
 		x.extStep(p, h, "ghost")
@@ -313,6 +321,7 @@ func (x *Exec) updMulti(p *Path, repl map[string]string) {
 			allGhost = false
 		}
 	}
+	p.prevH = p.H
 	p.H = h
 	if allGhost {
 		x.extStep(p, h, "ghost")
@@ -665,6 +674,16 @@ func (x *Exec) verifyFunc(fn *ssa.Function, ct *Contract) {
 	p.frames = []*Frame{fr}
 	for _, prm := range fn.Params {
 		sv := x.freshOf(p, prm.Type(), sanitize(prm.Name()))
+		if pt, ok := prm.Type().(*types.Pointer); ok && sv.K == KOpaque && cellComp(pt.Elem()) != "" {
+			// pointer to a scalar: a symbolic allocated cell
+			c := x.fresh("cellp")
+			p.declare(c, "Int")
+			p.assume(fmt.Sprintf("(and (< 0 %s) (< %s (next %s)) (= (select (Kind %s) %s) KCELL))", c, c, p.H0, p.H0, c))
+			sv = SV{K: KLoc, Loc: &Loc{Kind: "cell", Cell: c, Elem: pt.Elem()}}
+			if inv := typeInv(pt.Elem(), x.readCell(p.H0, sv.Loc).T); inv != "" {
+				p.assume(inv)
+			}
+		}
 		if sv.K == KSlice {
 			// a slice parameter denotes allocated storage; by the re-basing symmetry of the memory
 			// model (no Go code can observe a slice's offset) it starts at index 0 of its array
@@ -1236,7 +1255,7 @@ func (x *Exec) publishAll(p *Path) {
 		parts := strings.SplitN(u, "|", 2)
 		kinds = fmt.Sprintf("(store %s %s %s)", kinds, parts[1], parts[0])
 	}
-	p.pendingExt = "ghost"
+	p.pendingExt = "publish"
 	x.upd(p, "Kind", kinds)
 	p.unpub = nil
 }
